@@ -90,6 +90,7 @@ type Conn struct {
 	raw       []byte
 
 	rdl        time.Time // read deadline
+	wdl        time.Time // write deadline
 	rdlTimer   *time.Timer
 	lateWrites int // Write calls after Close
 	// ErrWithData makes the Read that returns the last queued fragment also
@@ -293,6 +294,20 @@ func (c *Conn) Write(b []byte) (int, error) {
 		idx := len(c.wlog) - 1
 		c.mu.Unlock()
 		if out.StallFor > 0 {
+			c.mu.Lock()
+			wdl := c.wdl
+			c.mu.Unlock()
+			if !wdl.IsZero() && time.Until(wdl) < out.StallFor {
+				// the deadline passes while the send buffer is full: a partial write and a time-out
+				if d := time.Until(wdl); d > 0 {
+					time.Sleep(d)
+				}
+				c.mu.Lock()
+				c.wlog[idx].Err = TimeoutError{}
+				c.wlog[idx].T1 = time.Now()
+				c.mu.Unlock()
+				return out.StallAt, TimeoutError{}
+			}
 			time.Sleep(out.StallFor)
 		} else {
 			for i := 0; i < 20; i++ {
@@ -391,7 +406,14 @@ func (c *Conn) SetReadDeadline(t time.Time) error {
 	c.cond.Broadcast()
 	return nil
 }
-func (c *Conn) SetWriteDeadline(t time.Time) error { return nil }
+// SetWriteDeadline: a Write that is stalled (Outcome.StallFor) when the deadline passes returns
+// the bytes accepted so far and a time-out, like a socket whose send buffer stays full.
+func (c *Conn) SetWriteDeadline(t time.Time) error {
+	c.mu.Lock()
+	c.wdl = t
+	c.mu.Unlock()
+	return nil
+}
 
 // Listener scripts Accept.
 type Listener struct {
